@@ -1059,7 +1059,8 @@ _router_entry("C07",
     lambda s, R, M: rp.cmp_dispatch(s, R, M, chains=True),
     lambda op, r, m, n: True,
     "case = (route set, request); every distinct case counts (the quantifier is 'any request whatsoever'); distribution shows raw-byte paths and odd methods")
-PROPS["C07"]["props_modules"] = ["Flamego.Props.C07", "Flamego.Props.C07App", "Flamego.Proofs.App"]
+PROPS["C07"]["props_modules"] = ["Flamego.Props.C07", "Flamego.Props.C07App", "Flamego.Proofs.App",
+                                 "Flamego.Props.AppFull", "Flamego.Proofs.AppFull"]
 PROPS["C07"]["extra_check"] = _conc_plain_extra
 PROPS["C07"]["technique"] += ("; plus an end-to-end model of one request through a whole application (Model/App: Before hooks, "
     "router, createContext, handler chain) with theorems tying C01/C03/C10 together at Flame.ServeHTTP, and `NEW app` sessions "
@@ -1070,7 +1071,41 @@ PROPS["C07"]["level_text"] += (" Application level (Props/C07App): App.serve com
     "app_serve_frame and the C03 / C15 transfer lemmas are over all applications and requests. `NEW app` sessions build a real Flame with Before "
     "hooks, middleware, routes with handler lists and header constraints, an action and default / user-supplied not-found "
     "chains, change it between requests, serve every request twice, and compare hooks run, the chain's events (with the "
-    "parameters each handler saw), the client's writer and escaped panics by plain equality.")
+    "parameters each handler saw), the client's writer and escaped panics by plain equality."
+    " Composed model (Model/AppFull, Props/AppFull): ONE machine in which a handler has a typed signature resolved by the "
+    "injector through request scope → app scope (Inject.resolveArgs), its Map actions really change the request scope (or the "
+    "Flame's), its return values go through the ReturnHandler visible when it returns (Ret.afterHandler / Ret.Out.act), Static "
+    "(Static.staticDecide) and Renderer / Render (Render.renderOps) are middleware among the handlers and every write goes "
+    "through Model/Writer. full_refines_chain: erasing types and returns along a run gives a configuration of the chain machine "
+    "of Model/Chain whose run is exactly the projection of the composed run (guard: every rendered return was expressible "
+    "there, recorded by the machine as `rep`), so C03 / C15 transfer (full_starts_no_skip, full_at_most_once, "
+    "full_well_bracketed; full_starts_no_skip_unguarded, full_well_bracketed_unguarded, full_next_runs_rest_inside, "
+    "full_recovery_frame_contains and full_auto_advance_iff are proved on the composed machine without any guard). C04 at application level: "
+    "unresolved_param_panics_before_body, resolved_params_enter_body, later_handler_sees_map, unresolved_param_recovery_first "
+    "(500, nothing escapes), scope_unchanged_without_mapApp, request_maps_invisible_to_later_requests (serveSeqFull). C14×C03: "
+    "return_rendering_is_respondFrom, return_writes_nothing_chain_continues, return_writes_written / return_writes_chain_stops, "
+    "custom_return_handler_mapped_midchain_applies_to_later_handlers. C16×C03: static_silent_next_handler_runs, "
+    "static_silent_run_continues, static_serves_chain_stops. C17×C04: renderer_visible_to_later_handlers, "
+    "renderer_same_request_only, render_without_renderer_panics, render_action_is_render. `NEW appfull` sessions build a real "
+    "Flame with reflect.MakeFunc handlers over the type universe of C04, Recovery, Renderer, Static over a temporary directory, "
+    "custom ReturnHandlers, and compare per request the handler enter/exit trace with argument ids, status, body, header names "
+    "and escaped panics by plain equality.")
+PROPS["C07"]["assumptions"] = PROPS["C07"]["assumptions"] + [
+    "composed model (Model/AppFull): the parameters of Recovery, Static and Renderer themselves (Context, *log.Logger) are "
+    "always resolvable (NewWithLogger maps the logger, newContext the Context, nothing can be unmapped); no panicking "
+    "Before-hooks of the response writer (finding F15 is C15's); an interface type with several implementors in one scope "
+    "is resolved with iteration choice 0 (generated sessions never create that ambiguity; C04 treats it)",
+    "composed model: the values of the headers net/http computes for Static (Content-Type by extension, Last-Modified, "
+    "Content-Length) are not modelled, only their names; http.Redirect's HTML body is a parameter (Env.redirectBody) "
+    "instantiated by the driver for paths without HTML-special characters",
+    "appfull sessions avoid (both sides would disagree, see harness/appfull.go): status codes outside 100..999 in return "
+    "values, custom ReturnHandlers, WriteHeader and render actions (net/http panics inside WriteHeader and the writer's "
+    "sync.Once stays spent - behind Recovery the client then gets 200 with Recovery's body and the chain goes on; the models "
+    "of C13/C14 leave the writer untouched), a lone returned value of a kind other than string / []byte / error (reflect's "
+    "placeholder text, parameter Env.ph), and http.ServeContent's own conditional / range handling (outside Model/Static)"]
+PROPS["C07"]["trusted_base"] = PROPS["C07"]["trusted_base"] + [
+    "parameters of the composed model (Model/AppFull.Env): reflect's type universe (sent by the harness on the NEW line), "
+    "encoding/json and encoding/xml (as in C17), the file system under Static's directory (declared by FS lines, as in C16)"]
 _router_entry("C08",
     "Lean 4 theorems over addRoute (rejections and acceptance) + differential correspondence of registration verdicts (panic / no panic) and subsequent reachability",
     "Registration is modelled with every rejection of tree.go/leaf.go/router.go; the correspondence compares ok/err of every "
